@@ -167,7 +167,7 @@ def _release(bi):
     tcmod = m.module('TC-MIB', [], [m.textual_convention('Level', seq(BASES[bi]))])
     # ... and where the module's subtree hangs (a draft under one arc, the published module under another)
     dev = m.module('DEV-MIB', [('TC-MIB', ['Level'])],
-                   [m.value_decl('devRoot', m.oid('iso', 3 + bi)),
+                   [m.value_decl('devRoot', m.oid('iso', pick([3, 4, 5, 6], bi))),
                     m.object_type('lvl', seq('Level'), m.oid('devRoot', 1), descr=m.text('d'), defval=DEFVALS[bi]),
                     m.object_type('oidObj', seq('OBJECT IDENTIFIER'), m.oid('devRoot', 2), descr=m.text('d'), defval=[tok.LC('devRoot')])])
     return [tok.parse_tokens(tcmod)[0], tok.parse_tokens(dev)[0]]
